@@ -31,7 +31,7 @@ ASSUMPTIONS = [
     "verbosity classes: debug / info / quiet (warning and error are not distinguished)",
 ]
 
-KEYS = ["foo", "bar", "a.b", "a.bc", "backend.slurm.log_mode", "backend.slurmx.y", "backend.local.port", "verbose", "clean_logs", "use_spec_hashes", "some.deep.dotted.key", "UPPER"]
+KEYS = ["foo", "bar", "a", "a.b", "a.bc", "some.deep", "backend.slurm", "backend.slurm.log_mode", "backend.slurmx.y", "backend.local.port", "verbose", "clean_logs", "use_spec_hashes", "some.deep.dotted.key", "UPPER"]
 VALUES = ["5", "-5", "+7", " 8 ", "007", "0", "yes", "no", "true", "false", "Yes", "TRUE", "False", "", "1.5", "1e3", "1_0", "abc", "hello world", "x" * 300, "None", "null", "[1]", "{}", "ü", "full", "merged", "none", "debug", "info", "warning", "12abc", " yes", "٣"]
 DEFAULTS = {"verbose": "info", "clean_logs": True, "use_spec_hashes": False}
 
